@@ -215,10 +215,13 @@ def main():
             "f64_selftest": po.get("f64_selftest", "not applicable to this property"),
             "formula_translation": ({
                 "status": ftie["status"], "translator": ftie["translator"], "functions_differing_from_pinned_tree": ftie["changed"],
+                "functions_no_longer_provably_the_model": ftie.get("failed", []),
+                "functions_outside_the_translators_subset": ftie.get("not_understood", []),
                 "of_which_this_property_is_about": ftie["relevant"], "translator_output": ftie["note"][:600],
                 "module": props.SRC_MODULE, "streams_run": tier_run,
                 "meaning": {"proved": "every translated function equals the model's for all objects/doubles: this property's theorems are about the source text",
-                            "not-understood": "the source is outside the translator's subset; the tie of this run is the correspondence alone",
+                            "not-understood": "a function this property is about is outside the translator's subset (it carries the reference text, nothing is claimed about it); the tie of this run is the correspondence alone",
+                            "lost-elsewhere": "an equality about a function this property is not about no longer checks; those it is about do",
                             "lost": "the source is understood but no longer provably the model; search widened"}[ftie["status"]]}
                 if ftie else "not used by this property"),
             "names_tables_source": ("go/extract (source translator)" if props.NAMES_SOURCE == "ast" else
